@@ -19,8 +19,9 @@
 (*   ret    : [shape, refs, keys]  shape single / tuple / list / dict /    *)
 (*            none                                                         *)
 (*   subs   : sequence of programs (the DAGs it may call)                  *)
-(* A REFERENCE is [c, v, n, path]: c = "const" (v), "param" (n), "site"    *)
-(* (n, then the key path: each key [k |-> "i"/"s", i, x]), "none".         *)
+(* A REFERENCE is [c, v, n, path]: c = "const" (v), "param" (n, then a key *)
+(* path), "site" (n, then the key path: each key [k |-> "i"/"s", i, x]),   *)
+(* "none".                                                                 *)
 (***************************************************************************)
 EXTENDS Naturals, Integers, Sequences, FiniteSets, TLC
 
@@ -92,7 +93,7 @@ Apply(fn, a) ==
 
 Resolve(r, env, args) ==
   CASE r.c = "const" -> r.v
-    [] r.c = "param" -> IF r.n <= Len(args) THEN args[r.n] ELSE VErr
+    [] r.c = "param" -> IF r.n <= Len(args) THEN Index(args[r.n], r.path) ELSE VErr       \* p, p[k], p[k][m]
     [] r.c = "site"  -> IF r.n <= Len(env) THEN Index(env[r.n], r.path) ELSE VErr
     [] OTHER -> VNone
 
